@@ -68,8 +68,12 @@ class SramWorld(World):
         how = config.get("init_as", "list")
         arg = {"list": lambda: list(image), "tuple": lambda: tuple(image),
                "iter": lambda: iter(list(image)), "gen": lambda: (v for v in image)}[how]()
-        dut = hw.construct(WishboneSRAM, size=size, data_width=dw, granularity=g, writable=wr,
-                           init=arg)
+        in_domain = size >= 2 and size & (size - 1) == 0 and g <= dw and size * g >= dw and \
+            len(image) <= size * g // dw
+        ctor = (lambda *a_, **k_: hw.must_accept("C15", f"WishboneSRAM(size={size}, data_width={dw}, "
+                                                 f"granularity={g})", *a_, **k_)) \
+            if in_domain else hw.construct
+        dut = ctor(WishboneSRAM, size=size, data_width=dw, granularity=g, writable=wr, init=arg)
         if how in ("iter", "gen"):
             stats.fault("init_is_one_shot_iterable")
         if config.get("reinit") is not None:
